@@ -43,6 +43,13 @@ P('C10', ['sess.*', 'cookie'], ['login', 'remember', 'expire'], ['core', 'full']
 P('C19', ['db.ex', 'db.pw', 'db.arb', 'db.conf', 'db.cTok', 'db.extra', 'sess.uid', 'resp.class', 'resp.loc', 'resp.mails'],
   ['register'], ['core', 'full'], foot_acts=['RegisterPost'])
 
+P('C17', ['resp.mails'], ['recover', 'register', 'tfasetup'], ['core', 'full'], fam_consts={'tfasetup': {'MaxDepth': 5}})
+PROPS['C17']['assumptions'] = PROPS['C17']['assumptions'] + [
+    'the scanner looks for every plaintext secret the harness typed or was shown (passwords incl. a bcrypt-shaped one, one-time passwords, '
+    'recovery codes, remember cookies, mailed tokens; raw, base64 std/url, hex, URL-escaped, and decoded token bytes) in every stored string '
+    'field, the remember-token table and the log lines of each step; SMS codes and the TOTP shared secret are outside the statement',
+    'histories are fault free (the property\'s quantifier); one third of the random configurations use a store whose Load resolves PIDs case-insensitively']
+
 OPIDS = {'Pids': '{"u1","o_pa_x","o_pa_y","o_pb_x","o_pb_y"}'}
 P('C02', ['sess.uid', 'sess.twofa', 'sess.totpPend', 'sess.smsPend', 'sess.smsCode', 'sess.smsFresh', 'resp.sms'],
   ['twofa', 'smsswitch'], ['twofa', 'full'], fam_consts={'twofa': {'MaxDepth': 5}},
